@@ -25,6 +25,9 @@ HYDRO_SETS = [
     ["density", "velocity_x", "velocity_y", "pressure", "extra", "max_x", "x_hii"],
     ["velocity_x", "density"],
     ["density", "velocity_z", "velocity_x", "velocity_y", "thermal_pressure", "passive_x", "passive_y"],
+    # component letter followed by ANOTHER x later in the name; two families sharing a stem
+    ["density", "momentum_x_flux", "momentum_y_flux", "momentum_z_flux", "B_x_max", "B_y_max", "B_z_max", "pressure",
+     "vx_extra", "vy_extra", "vz_extra"],
 ]
 RT_SETS = [
     ["photon_density_1", "photon_flux_1_x", "photon_flux_1_y", "photon_flux_1_z"],
